@@ -25,6 +25,21 @@ const P13: PS = PS::of(Prop::C13);
 const P14: PS = PS::of(Prop::C14);
 const P15: PS = PS::of(Prop::C15);
 
+const P06: PS = PS::of(Prop::C06);
+
+/// a library call; when it returns normally it must not have asked the allocator for anything
+/// (payloads are plain integers)
+fn wl<R>(cx: &mut Ctx, f: impl FnOnce() -> R) -> Result<R, tl::Pk> {
+    let r = tl::lib(f);
+    if r.is_ok() {
+        cx.bump(S::alloc_checks);
+        let n = tl::last_allocs();
+        let op = cx.cur_op;
+        cx.chk(P06, n == 0, "alloc", || format!("{n} allocator request(s) during a non-panicking `{op}` on a map of {WN} plain entries"));
+    }
+    r
+}
+
 fn key(i: usize) -> u16 {
     (i % U) as u16 * 7 + 1
 }
@@ -79,7 +94,7 @@ impl W<'_> {
         let ki = ((o[1] as usize) << 8 | o[2] as usize) % U;
         let k = key(ki);
         let v = (self.step << 8) | o[3] as u32;
-        let kind = scale(o[0], 14);
+        let kind = scale(o[0], 15);
         let cx = &mut *self.cx;
         cx.bump(S::ops);
         let present = self.model.get(&k).copied();
@@ -87,7 +102,7 @@ impl W<'_> {
         match kind {
             0 | 1 | 2 => {
                 cx.cur_op = "insert";
-                let r = tl::lib(|| if kind == 2 { self.m.checked_insert(k, v) } else if kind == 1 { Some(self.m.insert_key_value(k, v).map(|p| p.1)) } else { Some(self.m.insert(k, v)) });
+                let r = wl(cx, || if kind == 2 { self.m.checked_insert(k, v) } else if kind == 1 { Some(self.m.insert_key_value(k, v).map(|p| p.1)) } else { Some(self.m.insert(k, v)) });
                 match (r, present, full) {
                     (Ok(Some(got)), p, f) if p.is_some() || !f => {
                         cx.chk(P01, got == p, "return", || format!("insert({k}) returned {got:?}, the model had {p:?}"));
@@ -105,7 +120,7 @@ impl W<'_> {
             }
             3 | 4 => {
                 cx.cur_op = "remove";
-                let r = tl::lib(|| if kind == 3 { self.m.remove(&k) } else { self.m.remove_entry(&k).map(|p| p.1) });
+                let r = wl(cx, || if kind == 3 { self.m.remove(&k) } else { self.m.remove_entry(&k).map(|p| p.1) });
                 cx.chk(P01, r == Ok(present), "return", || format!("remove({k}) returned {r:?}, the model had {present:?}"));
                 if r.is_ok() {
                     self.model.remove(&k);
@@ -116,7 +131,7 @@ impl W<'_> {
             }
             5 => {
                 cx.cur_op = "get_mut";
-                let r = tl::lib(|| {
+                let r = wl(cx, || {
                     self.m.get_mut(&k).map(|x| {
                         let old = *x;
                         *x = v;
@@ -127,14 +142,14 @@ impl W<'_> {
                 if present.is_some() {
                     self.model.insert(k, v);
                 }
-                let c = tl::lib(|| (self.m.contains_key(&k), self.m.get_key_value(&k).map(|(a, b)| (*a, *b))));
+                let c = wl(cx, || (self.m.contains_key(&k), self.m.get_key_value(&k).map(|(a, b)| (*a, *b))));
                 cx.chk(P01, c == Ok((present.is_some(), present.map(|_| (k, v)))), "lookup", || format!("contains_key / get_key_value({k}) gave {c:?}"));
             }
             6 => {
                 cx.cur_op = "retain";
                 let mask = o[3] as u16 | 0x11;
                 let keep = |k: u16| (mask >> (k % 8)) & 1 == 1;
-                let r = tl::lib(|| self.m.retain(|k, _| keep(*k)));
+                let r = wl(cx, || self.m.retain(|k, _| keep(*k)));
                 cx.chk(P01, r.is_ok(), "unexpected-panic", || "retain panicked".into());
                 self.model.retain(|k, _| keep(*k));
             }
@@ -146,7 +161,7 @@ impl W<'_> {
                 if ks[0] != ks[1] && ks[1] != ks[2] && ks[0] != ks[2] {
                     let want: Vec<Option<u32>> = ks.iter().map(|q| self.model.get(q).copied()).collect();
                     let addrs: Vec<usize> = ks.iter().map(|q| tl::quiet(|| self.m.get_mut(q).map(|x| x as *mut u32 as usize).unwrap_or(0)).unwrap_or(0)).collect();
-                    let r = tl::lib(|| self.m.get_disjoint_mut([&ks[0], &ks[1], &ks[2]]).map(|o| o.map(|x| (*x, x as *mut u32 as usize))));
+                    let r = wl(cx, || self.m.get_disjoint_mut([&ks[0], &ks[1], &ks[2]]).map(|o| o.map(|x| (*x, x as *mut u32 as usize))));
                     match r {
                         Ok(got) => {
                             for i in 0..3 {
@@ -161,12 +176,38 @@ impl W<'_> {
                     }
                 }
             }
+            13 => {
+                // get_disjoint_mut with 200 requested keys (J > 170, most of them present): scratch
+                // space proportional to J must come from the stack
+                cx.cur_op = "get_disjoint_mut";
+                const BJ: usize = 200;
+                let stride = [1usize, 3, 7][o[3] as usize % 3];
+                let ks: [u16; BJ] = core::array::from_fn(|j| key(ki + j * stride));
+                let refs: [&u16; BJ] = core::array::from_fn(|j| &ks[j]);
+                let want: Vec<Option<u32>> = ks.iter().map(|q| self.model.get(q).copied()).collect();
+                let addrs: Vec<usize> = ks.iter().map(|q| tl::quiet(|| self.m.get_mut(q).map(|x| x as *mut u32 as usize).unwrap_or(0)).unwrap_or(0)).collect();
+                let r = wl(cx, || self.m.get_disjoint_mut(refs).map(|o| o.map(|x| (*x, x as *mut u32 as usize))));
+                match r {
+                    Ok(got) => {
+                        let bad = (0..BJ).find(|&i| got[i].map(|g| g.0) != want[i] || got[i].map(|g| g.1).unwrap_or(0) != addrs[i]);
+                        cx.chk(P13, bad.is_none(), "position", || {
+                            let i = bad.unwrap();
+                            format!("{BJ} keys requested: position {i} (key {}): got {:?}, get_mut gives {:?}", ks[i], got[i].map(|g| g.0), want[i])
+                        });
+                        cx.bump(S::disjoint_calls);
+                    }
+                    Err(p) => {
+                        let n = p.name();
+                        cx.chk(P13, false, "unexpected-panic", || format!("get_disjoint_mut of {BJ} pairwise different keys panicked: {n}"));
+                    }
+                }
+            }
             8 => {
                 cx.cur_op = "clone";
-                let r = tl::lib(|| self.m.clone());
+                let r = wl(cx, || Map::clone(&self.m));
                 match r {
                     Ok(c) => {
-                        let same = tl::quiet(|| *c == *self.m && *self.m == *c).unwrap_or(false);
+                        let same = tl::quiet(|| c == *self.m && *self.m == c).unwrap_or(false);
                         let got: BTreeMap<u16, u32> = c.iter().map(|(k, v)| (*k, *v)).collect();
                         cx.chk(P15.union(P14), same && got == self.model && c.len() == self.model.len(), "clone-equal", || format!("a clone of {} entries is not equal to the original ({} entries in the clone, == gives {same})", self.model.len(), c.len()));
                         cx.bump(S::clones);
@@ -199,11 +240,11 @@ impl W<'_> {
                 for (k, v) in self.model.iter().rev() {
                     other.insert(*k, *v);
                 }
-                let e1 = tl::lib(|| *other == *self.m && *self.m == *other);
+                let e1 = wl(cx, || *other == *self.m && *self.m == *other);
                 cx.chk(P14, e1 == Ok(true), "equality", || format!("two maps with the same {} entries in different slot orders compare {e1:?}", self.model.len()));
                 if let Some((kk, vv)) = self.model.iter().nth(o[3] as usize % self.model.len().max(1)) {
                     other.insert(*kk, vv.wrapping_add(1));
-                    let e2 = tl::lib(|| *other == *self.m || *self.m == *other);
+                    let e2 = wl(cx, || *other == *self.m || *self.m == *other);
                     cx.chk(P14, e2 == Ok(false), "equality", || format!("maps differing in the value of key {kk} compare equal"));
                 }
                 cx.bump(S::eq_calls);
@@ -212,7 +253,7 @@ impl W<'_> {
                 cx.cur_op = "drain";
                 let take = scale(o[3], self.model.len() + 1);
                 let n0 = self.model.len();
-                let r = tl::lib(|| {
+                let r = wl(cx, || {
                     let mut d = self.m.drain();
                     let mut ok = d.len() == n0;
                     for i in 0..take {
@@ -236,7 +277,7 @@ impl W<'_> {
                 for k in self.model.keys() {
                     s.insert(*k);
                 }
-                let ok = tl::lib(|| {
+                let ok = wl(cx, || {
                     let mut ok = s.len() == self.model.len();
                     ok &= s.contains(&k) == present.is_some();
                     ok &= s.remove(&k) == present.is_some();
@@ -248,7 +289,7 @@ impl W<'_> {
             }
             _ => {
                 cx.cur_op = "walk";
-                let r = tl::lib(|| {
+                let r = wl(cx, || {
                     let n = self.m.len();
                     let a = self.m.keys().len() == n && self.m.values().len() == n && self.m.iter_mut().len() == n && self.m.values_mut().len() == n;
                     let cut = scale(o[3], n + 1);
